@@ -23,9 +23,9 @@ type SchedProg struct {
 	NPick    int      `json:"pickTasks,omitempty"`
 	UdCalls  int      `json:"udCalls,omitempty"`
 	Extra    int      `json:"extra,omitempty"` // program-specific variant
-	Choices []int  `json:"schedule"`
-	Prio []int  `json:"priorities,omitempty"`   // mode "pct": task priorities
-	Changes []int  `json:"changePoints,omitempty"` // mode "pct": steps at which the running task is demoted
+	Choices  []int    `json:"schedule"`
+	Prio     []int    `json:"priorities,omitempty"`   // mode "pct": task priorities
+	Changes  []int    `json:"changePoints,omitempty"` // mode "pct": steps at which the running task is demoted
 	Mode     string   `json:"mode,omitempty"`         // "pct" or "random" (one choice per step)
 	Failure  string   `json:"failure,omitempty"`
 	Trace    []string `json:"trace,omitempty"`
